@@ -313,6 +313,22 @@ let do_zr line =
       (match K.zinv src (ns c1) with None -> "I:err" | Some d -> "I:" ^ dec_of d)
   | _ -> "badcase"
 
+(* ---- SBRT (C13):  sb <mode> <f|i> <cap> <cap2> ; <bytes> ---- *)
+let do_sb line =
+  match split_on_semis line with
+  | ["sb"; mode; dir; c1; c2] :: data :: _ ->
+    let src = List.map ns (List.filter (fun s -> s <> "-") data) in
+    let m = ns mode in
+    if dir = "f" then
+      (match K.sbrt_fwd m src (nat_of_int (int_of_string c1)) with
+       | None -> "F:err"
+       | Some enc ->
+         let f = "F:" ^ dec_of enc in
+         (match K.sbrt_inv m enc (nat_of_int (int_of_string c2)) with None -> f ^ " I:err" | Some d -> f ^ " I:" ^ dec_of d))
+    else
+      (match K.sbrt_inv m src (nat_of_int (int_of_string c1)) with None -> "I:err" | Some d -> "I:" ^ dec_of d)
+  | _ -> "badcase"
+
 (* ---- FPAQ (C12):  fp <hex data> ; <hex stream or -> ---- *)
 let do_fp line =
   match split_on_semis line with
@@ -371,6 +387,7 @@ let dispatch line =
   | "bc" :: _ -> do_bc line
   | "hd" :: _ -> do_hd line
   | "zr" :: _ -> do_zr line
+  | "sb" :: _ -> do_sb line
   | "fp" :: _ -> do_fp line
   | "ct" :: _ -> do_ct line
   | "xx" :: args -> do_xx args
